@@ -49,14 +49,14 @@ theorem sized_sound (s : Skel) (h : s.sized = true) : ¬ ∃ C, Knot s.contain C
 /-! ## arms -/
 
 /-- a reduce arm that pops the whole right-hand side passes only bound parameters `p<k>` -/
-theorem armArgs_full (ts : List SymType) (len : Nat) :
+theorem armArgs_full (fx : Fixes) (ts : List SymType) (len : Nat) :
     ∀ (cr : List (Nat × RSym)) (k : Nat), (∀ a ∈ cr, a.1 < len) →
-      armArgs ts len k cr = (enumFrom k cr).map (fun ia => Arg.p ia.1 ia.2.2.name)
+      armArgs fx ts len k cr = (enumFrom k cr).map (fun ia => Arg.p ia.1 ia.2.2.name)
   | [], _, _ => by simp [armArgs, enumFrom]
   | a :: rest, k, h => by
     have ha : a.1 < len := h a (by simp)
     simp only [armArgs, ha, if_true, enumFrom, List.map_cons]
-    rw [armArgs_full ts len rest (k + 1) (fun b hb => h b (List.mem_cons_of_mem _ hb))]
+    rw [armArgs_full fx ts len rest (k + 1) (fun b hb => h b (List.mem_cons_of_mem _ hb))]
 
 /-- bound parameters have exactly the type the action declares for that position -/
 theorem argsOk_bound (s : Skel) : ∀ (l : List (Nat × (Nat × RSym))) (names : List String),
@@ -102,11 +102,11 @@ theorem enumFrom_length {α} : ∀ (l : List α) (n : Nat), (enumFrom n l).lengt
 /-- The arms of a production that is not right-nulled (every production of an LR table) type-check
 against the action the call resolves to, when that action's parameters are the content symbols of
 the production (which is how `get_action_args` builds them). -/
-theorem calls_ok_of_full_length (s : Skel) (ts : List SymType) (nt : String) (c : Choice) (p : AProd)
+theorem calls_ok_of_full_length (fx : Fixes) (s : Skel) (ts : List SymType) (nt : String) (c : Choice) (p : AProd)
     (names : List String) (hrn : p.rnLen = p.rhs.length)
     (hsig : s.fnSig (actionName nt c) = some (List.zip names ((contentRhs p).map (fun a => Ty.named a.2.name))))
     (hlen : names.length = (contentRhs p).length) :
-    ∀ call ∈ prodCalls ts nt c p, s.callOk call = true := by
+    ∀ call ∈ prodCalls fx ts nt c p, s.callOk call = true := by
   intro call hcall
   unfold prodCalls at hcall
   simp only at hcall
@@ -128,7 +128,7 @@ theorem calls_ok_of_full_length (s : Skel) (ts : List SymType) (nt : String) (c 
     · split at hcall
       · simp only [List.mem_singleton] at hcall; subst hcall
         simp only [Skel.callOk, hsig]
-        rw [armArgs_full ts p.rhs.length (contentRhs p) 0 (contentRhs_lt p)]
+        rw [armArgs_full fx ts p.rhs.length (contentRhs p) 0 (contentRhs_lt p)]
         have e : (contentRhs p).map (fun a => Ty.named a.2.name)
             = (enumFrom 0 (contentRhs p)).map (fun ia => Ty.named ia.2.2.name) :=
           (enumFrom_map_snd (fun a : Nat × RSym => Ty.named a.2.name) (contentRhs p) 0).symm
